@@ -116,6 +116,13 @@ let socks_resp_write args =
       | Panic _ -> raise Model_panic)
   | _ -> "BAD-ARGS"
 
+(* client_reply <0|5|4> <target> <msg hex> <class 0..3> *)
+let client_reply args =
+  match args with
+  | [ p; t; msg; k ] ->
+      "OK W=" ^ hex (x_client_bytes (n_of_int (int_of_string p)) (parse_target t) (unhex msg) (n_of_int (int_of_string k)))
+  | _ -> "BAD-ARGS"
+
 let show_headers hs =
   if hs = [] then "-" else String.concat ";" (List.map (fun (k, v) -> hex k ^ "=" ^ hex v) hs)
 let parse_headers s =
@@ -606,6 +613,7 @@ let run_line ovf line =
         | "target_parse" -> target_parse args
         | "target_print" -> target_print args
         | "connect_write" -> connect_write args
+        | "client_reply" -> client_reply args
         | _ -> "UNKNOWN-OP " ^ op
       with
       | Model_panic -> "PANIC"
